@@ -16,6 +16,44 @@ DEFER = ("create_task", "ensure_future", "run_in_executor", "call_soon", "call_l
 CLOSERS = ("close", "abort")
 
 
+def receive_path_state(prog: Program, pouts: List[Outcome]) -> List[str]:
+    """What survives a call of the datagram builder: stores on objects that outlive the call, `global`
+    declarations, and mutating calls on module-level containers (AST sweep of the builder, the protocol and the
+    parser).  Shared by C06 (each frame is treated on its own) and C07 R7.2."""
+    from .c03 import MUTATORS
+    out: List[str] = []
+    for o in pouts:
+        for e in o.state.events:
+            if e.kind == "global":
+                out.append(f"the builder declares global {e.target}")
+            if e.kind in ("store", "storeitem"):
+                base = e.result
+                fresh = isinstance(base, tuple) and base and base[0] == "obj" and o.state.heap[base[1]].fresh
+                if not fresh:
+                    out.append(f"the builder stores {e.target} at {e.where.split(' ')[0]}, an object that outlives the call")
+    bm = prog.module("aioswitcher.bridge")
+    mod_names = set(bm.constants)
+    pfi = prog.func("aioswitcher.bridge:_parse_device_from_datagram")
+    ci = prog.cls("aioswitcher.bridge:UdpClientProtocol")
+    for f in [pfi] + list(ci.methods.values()) + list(prog.cls("aioswitcher.bridge:DatagramParser").methods.values()):
+        for n in ast.walk(f.node):
+            if isinstance(n, ast.Call) and isinstance(n.func, ast.Attribute) and n.func.attr in MUTATORS:
+                root = n.func.value
+                while isinstance(root, (ast.Attribute, ast.Subscript)):
+                    root = root.value
+                if isinstance(root, ast.Name) and root.id in mod_names:
+                    out.append(f"{f.qualname}:{n.lineno} mutates the module-level {root.id}: `{ast.unparse(n)[:60]}`")
+            if isinstance(n, (ast.Assign, ast.AugAssign)):
+                for t in (n.targets if isinstance(n, ast.Assign) else [n.target]):
+                    if isinstance(t, ast.Subscript):
+                        root = t.value
+                        while isinstance(root, (ast.Attribute, ast.Subscript)):
+                            root = root.value
+                        if isinstance(root, ast.Name) and root.id in mod_names:
+                            out.append(f"{f.qualname}:{n.lineno} stores into the module-level {root.id}: `{ast.unparse(n)[:60]}`")
+    return sorted(set(out))
+
+
 def run(prog: Program, rep: Report, tier: str) -> None:
     rep.rule("R7.1", "exactly one hand-off per datagram: every path of datagram_received calls self._on_datagram exactly once with the received bytes, synchronously (no task/executor/call_soon), and the builder makes at most one callback per datagram", 3)
     rep.rule("R7.2", "no memory between datagrams: nothing reachable from datagram_received stores to the protocol, the bridge, a module or any object that outlives the call (only fields of freshly built objects are written)", 2)
